@@ -14,16 +14,19 @@ PROPS = {
     "C01": {
         "level": "proof",
         "design_ref": "DESIGN.md §3 C01",
-        "technique": "Kani contract harnesses: real Serialize/Deserialize impls through the real datum (de)serializer per node kind, all values; per-cell encode/decode contracts against the executable spec; Verus composition lemma",
-        "level_text": "Deductive proof per node kind that decode(encode(v)) == v for EVERY value of the kind's domain (all i64/i32, every f32/f64 bit pattern, all duration triples, "
-                      "Option over both branch orders), through serde's own impls for the Rust types and the repository's real (de)serializer; plus the encode-side and decode-side "
-                      "cell contracts of C02/C03 against an independent specification, whose composition (spec decode inverts spec encode; structural induction over schemas) is a "
-                      "Verus lemma. Length-bounded kinds (bytes/string/arrays) are bounded stand-ins and labelled so.",
-        "level_note": "Composite schemas are covered compositionally, not end-to-end: records via C13's harness, arrays/maps via the block step contracts, unions with an explicitly given "
-                      "type-directed table (PerTypeLookup::new and all name lookups are HashMap-based, A2); user types' derive output is trusted (A3); decimals with non-zero scale enter rust_decimal (A3).",
+        "technique": "Kani contract harnesses: real Serialize/Deserialize impls through the real datum (de)serializer per node kind (all values) where one query is tractable; otherwise the per-cell encode contract (real serializer == spec_enc) and decode contract (real deserializer == spec_dec) against the executable spec, joined by a machine-checked lemma that the spec decoder inverts the spec encoder",
+        "level_text": "Deductive proof per node kind. Direct decode(encode(v)) == v through serde's own impls and the repository's real (de)serializer for every f64/f32 bit pattern, both booleans, "
+                      "and Option<i64> over both union branch orders (all i64). For the varint kinds (int, long and their logical types) the round trip in one query does not finish under CBMC; "
+                      "it is proved in three machine-checked parts: real serializer output == spec_enc(v) for every integer width (C02 cells), real deserializer == spec_dec on EVERY byte string "
+                      "(C03 cells), and spec_dec(spec_enc(v) ++ rest) == (v, len) for all i64 / i32 (Kani lemma c01_spec_varint_inverse). Duration: all 2^96 triples encode to the 12 specified bytes, "
+                      "decode contract in C03. Length-bounded kinds (bytes/string/fixed, arrays) are bounded stand-ins and labelled so.",
+        "level_note": "Composite schemas are covered compositionally, not end-to-end: arrays/maps via the block writer/reader step contracts, records only via C13's step family (encode side), unions with an "
+                      "explicitly given type-directed table (PerTypeLookup::new and all name lookups are HashMap-based, A2); the structural induction over schemas that joins the per-kind results is an "
+                      "argument in DESIGN.md, not machine-checked (A6); user types' derive output is trusted (A3); decimals with non-zero scale enter rust_decimal (A3).",
         "assumptions": [A1, A2, A3, A4, A6, A7, A8],
-        "explanation": "Round-trip harnesses: long, int, double, float, boolean, date, timestamp-micros, duration, Option<long> (both branch orders), bytes/fixed (bounded); plus every harness of the "
-                       "ser_cells and de_cells units tagged C01 (encode-side: conforming values must serialize; decode-side: typed decode equals the spec value, borrowed str/bytes point into the input).",
+        "explanation": "Round-trip harnesses: double, float, boolean, Option<long> (both branch orders); lemma c01_spec_varint_inverse; c01_duration_tuple_encode; plus every harness of the "
+                       "ser_cells, seq_steps, block_writer, duration_struct, de_cells and de_blocks units tagged C01 (encode side: conforming values must serialize to the spec bytes; decode side: typed decode "
+                       "equals the spec value, borrowed str/bytes point into the input).",
         "not_decided": ["recursive / deeply nested schemas end-to-end (covered by induction over the per-kind contracts, not executed)",
                         "name-directed union selection, enum by symbol name, records by field name (HashMap, A2)",
                         "decimals with non-zero scale and str/f64 presentations (rust_decimal, A3); decimal decode (read_decimal) not tractable under CBMC"],
@@ -41,7 +44,9 @@ PROPS = {
         "assumptions": [A1, A2, A3, A4, A7, A8],
         "explanation": "Cells covered: every integer width x {int,date,time-millis,long,time-micros,timestamp-*,decimal(bytes),decimal(fixed n)} and rejection by non-numeric nodes; "
                        "f32/f64 x {float,double}; bool/unit/none/unit-struct/unit-variant x {boolean,null,long}; bytes/str x {bytes,string,uuid,fixed,duration} and rejections; "
-                       "seq/tuple x {array,duration,bytes,fixed}; struct/map x {map,duration,record}; block writer advertised-length checks.",
+                       "tuple (u32,u32,u32) -> duration (all 2^96); seq elements into {fixed, duration} and struct {months,days,milliseconds} -> duration as one-step contracts from an arbitrary position "
+                       "(seq_steps, duration_struct); the array/map block writer's new / signal / end steps incl. the advertised-length checks (block_writer). Whole seq -> array presentations and map entries "
+                       "end-to-end do not finish (attic); struct -> record is C13's step family.",
         "not_decided": ["str -> enum symbol, struct name -> union branch (HashMap lookups, A2)",
                         "str / f64 -> decimal (rust_decimal parse, rescale: trusted dependency A3)",
                         "which (key, priority) pairs PerTypeLookup::new registers per node kind (the table itself; populates a HashMap) - only its priority/conflict resolution step is proved (Verus)"],
@@ -71,7 +76,7 @@ PROPS = {
                       "domain. Limits: AllowedDepth::dec strictly decreases (all usize), every descent site fails at budget 0, BlockReader::has_more never lets the running element count "
                       "exceed max_seq_size from ANY state (inductive), ReaderRead::read_slice never grows its scratch beyond max_alloc_size.",
         "level_note": "Not expressible as a contract here: 'the slice path performs no heap allocation' (no allocator observer), stack bytes, wall-clock; termination is shown only as "
-                      "'every loop finishes within its unwinding bound on the explored inputs'. check_for_cycles is under C19. A1 A4 A6 A8.",
+                      "'every loop finishes within its unwinding bound on the explored inputs'. check_for_cycles is not under contract (C19 withdrawn). A1 A4 A6 A8.",
         "assumptions": [A1, A3, A4, A6, A7, A8],
         "explanation": "Safety obligations are the built-in CBMC checks of every harness of units read_prims, de_blocks, de_cells, depth (several thousand checks per run, see cbmc_checks_total).",
         "not_decided": ["allocation-freedom of the slice path", "stack depth in bytes", "global running time bounds",
@@ -81,17 +86,17 @@ PROPS = {
         "level": "proof",
         "design_ref": "DESIGN.md §3 C08",
         "technique": "Kani function-level contract harness over all (state, byte) + Verus inductive fold lemma on the extracted Rabin::write",
-        "level_text": "Deductive proof: the real CRC step equals the bitwise CRC-64-AVRO definition for every state and byte (CBMC, complete), "
-                      "and Verus proves on the mechanically extracted Rabin::write that writing any byte string of any length is the fold of that step "
-                      "(so streaming the canonical form in pieces is sound). The canonical-form text itself is a bounded obligation, labelled so.",
+        "level_text": "Deductive proof of the checksum half: the real CRC step equals the bitwise CRC-64-AVRO definition for every state and byte (CBMC, complete), the initial/final values are the "
+                      "specification's, and Verus proves on the mechanically extracted Rabin::write that writing any byte string of any length, in any split into pieces, is the fold of that step "
+                      "(so streaming the canonical form into the hasher is sound). Which text is hashed - the Parsing Canonical Form writer - is NOT under contract.",
         "level_note": "Trusted: Kani/CBMC/Verus/Z3, std as modelled by Kani, the three documented mechanical rewrites of the Verus extraction. "
                       "JSON re-spelling invariance is not decided (parser out of reach).",
         "verus": ["rabin_fold"],
         "assumptions": [A1, A7, A8],
-        "explanation": "CRC-64-AVRO step of the real Rabin::write proved equal to the bitwise specification for all (state, byte); "
-                       "unbounded fold over any byte string by Verus on the mechanically extracted Rabin::write; "
-                       "canonical-form writer checked on bounded symbolic graphs against an independent PCF oracle.",
-        "not_decided": ["invariance of the fingerprint under JSON re-spelling (goes through the serde_json parser, C07)"],
+        "explanation": "CRC-64-AVRO step of the real Rabin::write proved equal to the bitwise specification for all (state, byte); unbounded fold over any byte string by Verus on the mechanically "
+                       "extracted Rabin::write. The canonical-form writer over a heap node vector does not finish under CBMC even for one-node graphs (attic).",
+        "not_decided": ["the Parsing Canonical Form text itself (fullnames, attribute order, first-occurrence rule): write_canonical_form is not under contract (attic: does not finish)",
+                        "invariance of the fingerprint under JSON re-spelling (goes through the serde_json parser, C07)"],
     },
     "C11": {
         "level": "proof",
@@ -147,7 +152,7 @@ PROPS = {
                       "against a sink whose every write_vectored call nondeterministically accepts any prefix (0..=remaining), is interrupted, or fails hard. For every such "
                       "schedule over three slices of bounded length: Ok implies the sink holds exactly the concatenation; zero-length acceptance gives WriteZero; hard errors "
                       "surface; what was delivered before an error is a prefix. The loop has no size-dependent logic, but the bound is stated.",
-        "level_note": "Bounds: slice lengths <= 2 (quick) / <= 3 (thorough), <= 2 interruptions. The caller side (flush_finished_block keeps the pending block on Err) is a C15 obligation. A1 A8.",
+        "level_note": "Bounds: slice lengths <= 2 without interruptions, <= 1 with up to 2 interruptions and a hard error (quick); <= 2 with one interruption and a hard error (thorough; the 0..=3 version exhausts 12 GB). The caller side (flush_finished_block keeps the pending block on Err) is a C15 obligation. A1 A8.",
         "assumptions": [A1, A7, A8],
         "explanation": "Functions under contract: write_all_vectored, write_all_vectored_inner (+ IoSlice::advance_slices as linked). Exhaustive over schedules within the stated "
                        "slice-length bounds via symbolic choice, not sampled.",
@@ -160,18 +165,18 @@ PROPS = {
         "kani_args": ["CBMC:--unwindset", "CBMC:memcmp.0:18"],
         "level": "other",
         "design_ref": "DESIGN.md §3 C17",
-        "technique": "Kani contract harnesses on the container Reader's state machine put directly into its block-reading state: every truncation offset of a one-block file, framing corruptions, Broken/EOF latches, Take contracts (null codec)",
-        "level_text": "Bounded deductive check (labelled bounded): for a file body of one block with one value - header varints in two-byte form so that cuts fall inside varints - EVERY truncation "
-                      "offset, every sync marker and value are explored through the real deserialize_next: results are a prefix of the written values, then at most one error, then end of stream "
-                      "for all later calls; corrupted sync bytes and size/count disagreements are errors; the Broken state and the EOF latch are complete over the state enum; the slice Take "
-                      "contract (sub-reader limited to block size, leftover data rejected, resume exactly after the block) is complete for inputs up to 6 bytes and any block size.",
-        "level_note": "Null codec and slice input only in the quick tier; compressed codecs and the snappy CRC are external (C05); I/O errors injected inside a read are not modelled; the reader is "
-                      "constructed past the file header (header parsing is serde_json, out of reach). A1 A4 A8 A9.",
+        "technique": "Kani contract harnesses on the container Reader's state machine put directly into a given state (Broken / EOF latch / NotInBlock), plus the Take sub-reader contracts (null codec)",
+        "level_text": "Deductive check of the functions under contract only (not the whole property): the Broken state and the EOF latch of deserialize_seed_next are complete over the state enum "
+                      "(Broken => Err once, then end of stream; latch => end of stream without reading); the slice Take contract (block larger than input => Err, sub-reader limited to the block size, "
+                      "leftover data rejected, resume exactly after the block) is complete for inputs up to 6 bytes and any block size; the same contract for the streamed reader (io::Take) for inputs "
+                      "up to 5 bytes and every refill size.",
+        "level_note": "Null codec only; compressed codecs and the snappy CRC are external (C05); the reader is constructed past the file header (header parsing is serde_json, out of reach). "
+                      "Whole-file harnesses (every truncation offset, sync/size/count corruption through deserialize_next) do not finish under CBMC and are kept in the attic: NOT decided. A1 A4 A8 A9.",
         "assumptions": [A1, A4, A6, A7, A8, A9],
-        "explanation": "One-block files suffice to visit every state transition of the reader (NotInBlock -> InBlock -> leaving block -> NotInBlock/EOF, and every `?` exit through Broken); "
-                       "multi-block files repeat the same transitions from the same state shape.",
-        "not_decided": ["compressed codecs, snappy CRC32 (external libraries)", "I/O errors injected at every read call of a streaming reader",
-                        "files with several blocks end-to-end (the per-transition argument is not machine-checked as an induction)"],
+        "explanation": "Harnesses: c17_broken_and_eof_latches, c17_slice_take_contract, c17_reader_take_contract; the step contracts say what each transition guarantees, their composition over a "
+                       "whole damaged file is not machine-checked.",
+        "not_decided": ["truncation at every byte offset of a file, end-to-end (attic: does not finish)", "sync marker / declared size / object count corruption through deserialize_next (attic)",
+                        "compressed codecs, snappy CRC32 (external libraries)", "I/O errors injected at every read call of a streaming reader"],
     },
     "C18": {
         "level": "proof",
@@ -247,3 +252,11 @@ NOT_APPLICABLE = [
     {"property_id": "C09", "reason": "both directions are serde_json text production/consumption plus the parser of C07; 'parses back to an isomorphic graph' needs the parser under contract; string/JSON reasoning is outside both verifiers' reach here"},
     {"property_id": "C20", "reason": "the subject is a proc-macro (token stream -> Rust code) and the quantifier is over programs (type definitions): neither verifier can take a proc-macro as the code under contract and the generated code differs per type, so there is no fixed function to annotate"},
 ]
+
+# development aid only (never registered): `VERIF_DEV=1 ./check XDEV` runs harnesses annotated
+# `props: XDEV` (experiments being brought up) without touching any claimed property's check
+import os as _os
+if _os.environ.get("VERIF_DEV"):
+    PROPS["XDEV"] = {"kani_args": ["CBMC:--unwindset", "CBMC:memcmp.0:18"], "level": "other", "design_ref": "-",
+                     "technique": "-", "level_text": "-", "level_note": "-", "assumptions": [], "explanation": "-",
+                     "not_decided": []}
